@@ -187,13 +187,59 @@ def atom_kinds():
         def __str__(self):
             return "OneOf"  # all instances print alike: labels are for display, not identity
 
+    import enum
+
+    from mc.checks.c15 import tok
+    from codelimit.common.token_matching.predicate.Keyword import Keyword
+    from codelimit.common.token_matching.predicate.Operator import Operator
+    from codelimit.common.token_matching.predicate.Symbol import Symbol
+
+    class Letter(enum.Enum):
+        A = "a"   # an item that is NOT the string 'a' but carries it in an attribute called value
+
     return {
+        # the atom 'a' and the atom Letter.A are different items (Letter.A != 'a')
+        "valueattr": ({"a": "a", "b": Letter.A, "c": "c"}, {}),
+        # token predicates of different classes that compare the same text: ':' as punctuation, as operator, as keyword
+        "tokenpreds": ({"a": Symbol(":"), "b": Operator(":"), "c": Keyword(":")}, {"a": tok("p::"), "b": tok("op::"), "c": tok("kw::")}),
         "words": (WORD_ATOMS, {}),
         # distinct, disjoint atoms whose printed form is identical
         "samelabel": ({"a": 1, "b": "1", "c": "x"}, {}),
         # atoms that are predicate objects; the sequence holds plain items
         "predicates": ({"a": OneOf("a", "A"), "b": OneOf("b"), "c": "c"}, {"a": "A", "b": "b", "c": "c"}),
     }
+
+
+LONG_PATTERNS = [("cat", ("star", ("a",)), ("b",)), ("cat", ("plus", ("cat", ("a",), ("b",))), ("c",)), ("plus", ("alt", ("a",), ("b",)))]
+LONG_LENGTHS = [255, 256, 257, 511, 512, 513, 1023, 1024, 1025, 2100]
+
+
+def _block_long(block, agg):
+    """long inputs: the shortest matching prefix / the whole word lies beyond any small window"""
+    from codelimit.common.gsm import matcher
+
+    for tree in LONG_PATTERNS:
+        ref = R.compile_tree(tree)
+        for n in LONG_LENGTHS:
+            seqs = {"a^n b": "a" * n + "b", "(ab)^n c": "ab" * n + "c", "a^n": "a" * n, "a^n b a": "a" * n + "ba", "(ab)^n": "ab" * n}
+            for label, seq in seqs.items():
+                s = list(seq)
+                exp_member, exp_prefix = R.member(ref, s), R.shortest_nonempty_prefix(ref, s)
+                case = {"pattern": R.to_json(tree), "long": [label, n]}
+                agg.case(case, True, (exp_member, exp_prefix is not None), sample=False)
+                for api in ("match", "nfa_match", "starts_with"):
+                    try:
+                        got = getattr(matcher, api)(top_expr(tree), s)
+                    except Exception as e:  # noqa
+                        agg.violation("api-exception", {"api": api, "error": type(e).__name__, "family": "long"}, case, repr(e))
+                        continue
+                    if api == "starts_with":
+                        if (got.end if got else None) != exp_prefix:
+                            agg.violation("starts-with-mismatch", {"api": api, "dir": "missed" if got is None else "wrong-length", "family": "long"}, case,
+                                          f"{R.show(tree)} on {label} n={n}: expected shortest prefix {exp_prefix}, got {got.end if got else None}")
+                    elif bool(got) != exp_member:
+                        agg.violation("membership-mismatch", {"api": api, "dir": "false-accept" if got else "false-reject", "family": "long"}, case,
+                                      f"{R.show(tree)} on {label} n={n}: expected {exp_member}")
 
 
 def _block(block, agg):
@@ -206,7 +252,9 @@ def _block(block, agg):
             for kind, sig, seq, detail in eval_tree(tree, seqs, seq_alpha, agg, shared=True):
                 agg.violation(kind, dict(sig, operands="shared"), {"pattern": R.to_json(tree), "seq": seq, "alphabet": seq_alpha, "shared": True}, detail)
         return
-    if block[0] in ("words", "samelabel", "predicates"):
+    if block[0] == "long":
+        return _block_long(block, agg)
+    if block[0] in ("words", "samelabel", "predicates", "valueattr", "tokenpreds"):
         pat_atoms, seq_items = atom_kinds()[block[0]]
         real.ATOMS.clear()
         real.SEQ.clear()
@@ -315,6 +363,9 @@ def replay(case):
 
 def _replay_isolated(case):
     agg = core.Agg()
+    if "long" in case:
+        _block_long(("long",), agg)
+        return [r for lst in agg.violations.values() for _, r in lst][:3]
     if case.get("atoms"):
         pat_atoms, seq_items = atom_kinds()[case["atoms"]]
         real.ATOMS.update(pat_atoms)
@@ -362,7 +413,7 @@ def run(ctx: core.Ctx):
         n = len(R.trees(size, "abc"))
         step = max(1, n // ctx.workers + 1)
         for lo in range(0, n, step):
-            for kind in ("words", "samelabel", "predicates"):
+            for kind in ("words", "samelabel", "predicates", "valueattr", "tokenpreds"):
                 blocks.append((kind, "abc", size, lo, min(n, lo + step), "abc", 4 if kind == "words" else 3))
     # one operand object used twice in a pattern, the expression object reused for every call
     body_size = ctx.pick(3, 4)
@@ -371,6 +422,8 @@ def run(ctx: core.Ctx):
     step = max(1, nsh // (ctx.workers * 2) + 1)
     for lo in range(0, nsh, step):
         blocks.append(("shared", body_size, lo, min(nsh, lo + step), "abc", ctx.pick(3, 4)))
+    blocks.append(("long",))
+    ctx.bounds["long_inputs"] = {"patterns": [R.show(t) for t in LONG_PATTERNS], "lengths": LONG_LENGTHS}
     ctx.bounds["word_atoms"] = {k: repr(v) for k, v in WORD_ATOMS.items()}
     ctx.bounds["other_atom_kinds"] = {"samelabel": "1, '1', 'x' (two atoms print alike)", "predicates": "client-defined Predicate objects OneOf{a,A}, OneOf{b} and a plain item"}
     pair_size = 4  # 160 trees -> 25 440 ordered pairs (size 5 would be 655 000 forked children)
